@@ -471,3 +471,8 @@ func bookkeeping(s server.VerifSnapshot) string {
 	fmt.Fprintf(&sb, "userrole=%v", keys)
 	return sb.String()
 }
+
+type milvusCallCtx = milvus.CallCtx
+
+// prepare begins a new incarnation without reloading the persisted tasks (the caller reloads after arranging faults).
+func (w *world) prepare(t fatalfer) *incarnation { return w.start(t, false) }
